@@ -17,7 +17,7 @@
 (*                                                                         *)
 (* P = [mode, niter, nconv, infmax, t05, t2]   (infmax is 50 in the code)  *)
 (***************************************************************************)
-EXTENDS Naturals, Integers, Sequences, FiniteSets, TLC, Json
+EXTENDS Naturals, Integers, Sequences, SequencesExt, FiniteSets, TLC, Json
 
 CONSTANT Variant      \* "code" = the transcription; "norebind" = negative control: mult_arr is not re-created per iteration
 
@@ -84,9 +84,9 @@ Step(P, s, v) ==
              ELSE IF s5.j = P.niter THEN [s5 EXCEPT !.done = TRUE, !.why = "niter"]
              ELSE s5
 
-RECURSIVE RunFrom(_, _, _, _)
-RunFrom(P, s, h, k) == IF s.done \/ k > Len(h) THEN s ELSE RunFrom(P, Step(P, s, h[k]), h, k + 1)
-Run(P, h) == RunFrom(P, Init0(P), h, 1)
+(* the loop on a whole history: a fold (the Java-implemented FoldLeft evaluates eagerly; a RECURSIVE definition
+   overflows TLC's stack on histories of some 200 iterations, which real fits with three parameters reach) *)
+Run(P, h) == FoldLeft(LAMBDA s, v : IF s.done THEN s ELSE Step(P, s, v), Init0(P), h)
 
 (* lines 273-284: what is returned.  Parameters are those of `best` (it, br): best.x itself in linear mode
    ("id"), 10**best.x * mult_arr_best otherwise ("pow10"); zeros when nothing finite was found *)
@@ -178,8 +178,13 @@ HPost == st.done => LET a == Answer(Par, st) IN
 HRunAgrees == st = Run(Par, hist)           \* the fold used by the judge is the state machine
 
 (* ---- 3. random long behaviours (TLC -simulate): one random successor per step ---- *)
+(* the random vector is fixed by assigning it to hist' first (a function constructor or a LET would re-draw it at every
+   use; a definition without argument would be evaluated once as a constant) *)
+RandVec(h) == IF NB(Mode) = 1 THEN <<RandomElement(Alph)>>
+           ELSE IF NB(Mode) = 2 THEN <<RandomElement(Alph), RandomElement(Alph)>>
+           ELSE <<RandomElement(Alph), RandomElement(Alph), RandomElement(Alph), RandomElement(Alph)>>
 SimNext == /\ ~st.done
-           /\ LET v == [b \in 1..NB(Mode) |-> RandomElement(Alph)] IN
-                st' = Step(Par, st, v) /\ hist' = Append(hist, v) /\ gh' = gh
+           /\ hist' = Append(hist, RandVec(hist))
+           /\ st' = Step(Par, st, hist'[Len(hist')]) /\ gh' = gh
 SimSpec == HInit /\ [][SimNext]_vars
 =============================================================================
